@@ -104,7 +104,17 @@ def run_one(args):
                     jb.fn(env2, **kw)
                     num = env2.numeric.get(o.name.split(' @path(')[0])
                     if num is None:
+                        # a lemma of the symbolic proof has no native counterpart: the failing input is confirmed when any
+                        # native clause of the same contract fails at the witness
                         r["native"] = "obligation not reached natively"
+                        import numpy as _np
+                        for nm2, (d2, s2, L2, R2) in env2.numeric.items():
+                            ex = _np.asarray(d2, dtype=float) - core.NATIVE_TOL * (1.0 + _np.asarray(s2, dtype=float))
+                            if ex.size and float(_np.max(ex)) > 0:
+                                r["native"] = "confirmed by the native clause: %s" % nm2
+                                r["native_diff"] = float(_np.max(_np.asarray(d2, dtype=float)))
+                                r["confirmed"] = True
+                                break
                         continue
                     diff, sc, L, R = num
                     idx = tuple(r["entry"]) if r.get("entry") is not None else ()
